@@ -51,6 +51,14 @@ def obs_code(x):
 def tie_inputs(ents, rng, tier):
     inputs = ["q&%s;q" % k for k, _ in ents]
     inputs += ADVERSARIAL
+    # names that are in the table but for the case of some letters: not entity names
+    names = set(k for k, _ in ents)
+    sample = [k for k, _ in ents]
+    rng.shuffle(sample)
+    for k in sample[:80 if tier == "quick" else 800] + ["nbsp", "pi", "rarr", "times", "minus", "alpha", "lt", "amp"]:
+        for v in (k.upper(), k.lower(), k.capitalize(), k.swapcase(), k[:-1] + k[-1].upper()):
+            if v not in names:
+                inputs.append("q&%s;q" % v)
     alphabet = ["&", ";", "a", "Z", "1", "q", " ", "&", ";", "lt", "amp", "alpha", "frac12"]
     n = 400 if tier == "quick" else 4000
     for _ in range(n):
@@ -410,9 +418,16 @@ def run(res):
                             break
         idx = C.parse_coq_nlist(log) if "Tie/C17Tie" in log else None
         if idx:
-            for i in idx[:3]:
+            names = set(k for k, _ in ents)
+            for i in idx[:40]:
                 t, oc = obs[i]
                 res.extra.setdefault("tie_disagreements", []).append({"input": t, "library": oc})
+                # a reference to a name that is not in the table must be refused
+                unknown = [m for m in re.findall(r"&([A-Za-z0-9]+);", t) if m not in names]
+                if unknown and oc[0] == 2 and n < 3:
+                    res.violation("&%s; is not an entity name but set_mathml accepts it (text %r)" % (unknown[0], oc[1]),
+                                  {"kind": "entity", "input": "<math><mtext>%s</mtext></math>" % t, "reference": None, "table": None, "observed": oc})
+                    n += 1
         n += entity_oracle(res, ents, ref)
         n += surface_oracle(res, rng)
         # direct table search: the first table entry that disagrees with the reference
